@@ -17,7 +17,7 @@ theorem contains_filter (l : HG) (p : List Nat → Bool) (e : List Nat) :
   simp [List.mem_filter]
 
 theorem mem_nodesOf {E : HG} {x : Nat} : x ∈ nodesOf E ↔ ∃ e ∈ E, x ∈ e := by
-  unfold nodesOf; rw [mem_isort, mem_dedup]; simp [List.mem_flatMap]
+  unfold nodesOf; rw [mem_isort, mem_dedup]; simp
 
 theorem nodesOf_sorted (E : HG) : SSorted (nodesOf E) := isort_sorted (nodup_dedup _)
 
